@@ -1,0 +1,8 @@
+//go:build !verif
+// +build !verif
+
+package utils
+
+import "github.com/polynetwork/poly/common"
+
+func verifOnConcatKey(contract common.Address, parts [][]byte, result []byte) {}
